@@ -482,7 +482,8 @@ def judge_history(h, want, ignore_envelope=False):
             boots += 1
             booted = True
             svcs = [ptok(t) for t in f[1:3] if t != "-"]
-            boot_mapped = set(e["name"] for e in snap_a if "name" in e)
+            # "any ClusterCIDR known when the controller starts": the objects the start-up listing returned
+            boot_mapped = set(e["name"] for e in snap_a if "name" in e) | set(api_ccs.keys())
             holders_shown = {n: set(nd["cidrs"]) for n, nd in api_nodes.items() if nd["cidrs"]}
             listed_at_boot = {n: set(nd["cidrs"]) for n, nd in api_nodes.items() if nd["cidrs"]}
             del_processed = {}
@@ -550,6 +551,18 @@ def judge_history(h, want, ignore_envelope=False):
                     def _d(e):
                         return "assoc=%s v4=%s v6=%s term=%s" % (",".join(e["assoc"]), (e["v4"] or {}).get("used"), (e["v6"] or {}).get("used"), e["term"])
                     bad("C10", i, f"processing ClusterCIDR {f[1]} again changed its pools: {_d(eb[0])} -> {_d(ea[0])}")
+
+        # C10: a ClusterCIDR that exists, whose deletion was not requested and which was mapped, does not lose its pool
+        if kind == "procCC" and ob["res"] not in ("none", "panic"):
+            vo = before["view_ccs"].get(f[1])
+            names_a = set(e.get("name") for e in snap_a if "name" in e)
+            for e in snap_b:
+                nme = e.get("name")
+                if nme is None or nme in names_a:
+                    continue
+                ao = api_ccs.get(nme)
+                if ao is not None and not ao["deleting"] and (nme != f[1] or (vo is not None and not vo["deleting"])):
+                    bad("C10", i, f"ClusterCIDR {nme} exists, its deletion was not requested, yet its pool was unmapped while handling {f[1]}")
 
         # ---------------- C04 at idle points: what still justifies a used block
         if kind == "nodeAdd" and f[1] not in before["api_nodes"] and f[1] in api_nodes:
